@@ -137,6 +137,11 @@ def impl_main(doc, tag):
         return "crash:%s:%s" % (type(exc).__name__, str(exc)[:100])
 
 
+TEMPLATES_CLASH = [
+    {"type": "object", "title": "Person", "properties": {"first-name": {"type": "string", "minLength": 1}, "first_name": {"type": "string"},
+                                                        "class": {"items": {"type": "null"}}, "class_": {"type": "integer"}, "1st": {"not": {"type": "null"}}, "_1st": {}}},
+    {"properties": {"a b": {"properties": {"x": {"type": "string"}}}, "a-b": {"anyOf": [{"type": "string"}, {"type": "null"}]}, "a_b": {"type": "integer"}}},
+]
 DRAFT_URIS = ["http://json-schema.org/draft-04/schema#", "http://json-schema.org/draft-06/schema#", "http://json-schema.org/draft-07/schema#",
               "https://json-schema.org/draft/2019-09/schema", "https://json-schema.org/draft/2020-12/schema", "http://json-schema.org/schema#"]
 
@@ -159,7 +164,7 @@ def run(tier, seed, replay=None):
     else:
         n_bases = 120 if tier == "quick" else 1500
         cfg = gen.Cfg(max_depth=3 if tier == "quick" else 4)
-        bases = [copy.deepcopy(t) for t in TEMPLATES]
+        bases = [copy.deepcopy(t) for t in TEMPLATES] + [copy.deepcopy(t) for t in TEMPLATES_CLASH] * 3
         while len(bases) < n_bases:
             s = gen.gen_schema(rng, cfg)
             if isinstance(s, dict):
